@@ -23,6 +23,9 @@ THEOREMS = [
     "Typedpy.C20.private_copies_equal_original_sequential",
     "Typedpy.C20.no_racy_site_equals_sequential",
     "Typedpy.C20.flat_oneOf_notField_linearizable", "Typedpy.C20.flat_oneOf_example",
+    "Typedpy.C20.counter_missing_key_oneof_through", "Typedpy.C20.counter_missing_key_allof_through",
+    "Typedpy.C20.same_value_writes_linearizable", "Typedpy.C20.same_value_writes_example",
+    "Typedpy.C20.counter_wrong_field_named_nested_oneOf", "Typedpy.C20.counter_wrong_element_nested_notField",
     "Typedpy.C20.safe_table_linearizable",
     "Typedpy.C20.no_racy_site_linearizable",
     "Typedpy.C20.current_tree_linearizable",
@@ -32,32 +35,49 @@ THEOREMS = [
     "Typedpy.C20.counter_wrong_field_named_allof",
 ]
 RULE = ("one case = (shape = class shared by the threads, 2-3 thread operations on distinct instances, schedule family); "
-        "stream A: flat collection fields (Array/Deque/Tuple/Set/Map, homogeneous and positional, same field and one item "
-        "Field instance shared by two fields), ALL schedules with <= 2 (quick) / <= 3 (thorough) pre-emptions at the "
-        "write/store/read-back lines of the site functions found by the translator, compared with the sequential result "
-        "AND with the Lean model's prediction for the observed event order; stream E: same schedules on nested "
-        "collections, AnyOf/OneOf/AllOf/NotField, ImmutableSet, nested structures, scalars (oracle only); stream B: "
-        "construct/deserialize/setattr/serialize mixes, pre-emption at ANY line of ANY typedpy file, sampled schedules "
-        "(oracle only); twin streams (A/E/B): the same declaration spelling (Optional[..], AnyOf[.., None], X | None, Union, list[Optional], Array/Set/Map/Tuple, ...) written out freshly for two differently named fields and a second class, every thread on a DIFFERENT declaration, explicit None / values the earlier options reject / valid values, directed None||None and None||rejected cases - must be sequential; ser streams (E/B): SerializableField items (DateField / DateTime / Enum) as Map key/value, Set item, positional Array/Tuple/Deque item, with a constructing / assigning thread against a DESERIALIZING thread (document = serialized image of its kwargs) on the same field; cold streams (B line-level sampling + E exhaustive at every line of the cache-filling functions found by the translator): classes with TO_CAMELCASE / TO_LOWERCASE / dict / nested mappers REBUILT for every schedule (cold per-class caches), thread programs deserialize||deserialize, serialize||serialize, serialize||deserialize, construct||deserialize. evaluations counts cases; each case runs 25-1500 schedules (histogram schedules-per-case). "
+        "stream A (model correspondence + oracle): flat collection fields (Array/Deque/Tuple/Set/ImmutableSet/Map, homogeneous and "
+        "positional) and multi-field wrappers (AllOf/AnyOf/OneOf/NotField over scalar options, integer values), same field and "
+        "one item / option Field instance shared by two fields; ALL schedules with <= 2 (quick) / <= 3 (thorough) pre-emptions at "
+        "the shared-access lines of the site functions found by the translator, AND at BYTECODE granularity (every attribute / "
+        "item / call instruction of the site functions is a yield point, events logged at the CALL / STORE instruction of the "
+        "access; 1 pre-emption quick, 2 thorough); every run is compared with the sequential results AND with the Lean model's "
+        "prediction for the observed event order, the model programs being modelProgs(Generated.sharedWrites) - shared cells for "
+        "sites the table of THIS tree lists as racy, private copies otherwise; the site at which a Field object was really "
+        "renamed is cross-checked against the site the model attributes the cell to; a dynamic probe (line tracer + snapshots of "
+        "every reachable Field object's __dict__) names every function that writes a shared Field object: each must be covered "
+        "by a table row; stream E (oracle): same exhaustive schedules on nested collections, wrappers, nested structures, "
+        "scalars, at event lines / every line of the site functions / every line of the field implementations (table "
+        "independent) / bytecode level; stream B: construct/deserialize/setattr/serialize mixes, pre-emption at ANY line of ANY "
+        "typedpy file, sampled schedules; twin streams: the same declaration spelling written out freshly for two fields and a "
+        "second class, every thread on a DIFFERENT declaration - must be sequential; ser streams: SerializableField items vs a "
+        "DESERIALIZING thread; warm_ser: scalar SerializableFields (DateField/DateTime/TimeField/DecimalNumber/Enum) with a "
+        "warm-up HISTORY and EQUAL inputs in both threads, every line of extfields/ and of every deserialize/serialize method; "
+        "unique_field: is_unique registry with the uniqueness feature on, equal values; cold streams: classes with mappers "
+        "REBUILT for every schedule; mapper_hist: warm-up history filling the process-wide caches. Oracle: every thread's result "
+        "must be one it has in some sequential order AND the result VECTOR must be that of ONE sequential order; no foreign "
+        "values; process-wide mode flags unchanged. evaluations counts cases; each case runs 25-1500 schedules. "
         "non-trivial = >= 2 threads on a non-scalar shape, distinct by sha256 of the case")
 ASSUMPTIONS = [
-    "PARTIAL: pre-emption only at statement/line boundaries inside typedpy files, driven by sys.settrace with one "
-    "thread running at a time; real CPython switches between bytecodes under the GIL (a strictly finer granularity) - "
-    "outside the model and the harness",
-    "bounded pre-emptions in the harness (<= 2 quick, <= 3 thorough), 2-3 threads; the Lean theorems have no such bound",
-    "the model covers the collection-validation programs (shared Field._name cells); operations outside it "
-    "(multi-field wrappers, serializers, mapper cache) are checked by the sequential-result oracle only",
-    "element validity in the model is an oracle bit supplied per element (Integer(minimum=0) items: v >= 0)",
-    "lazily filled caches (_serialize closures, aggregated_mapper_by_class) are reset by the harness before every "
-    "schedule so that first-use races are exercised",
+    "the model's step is ONE shared read or write (CPython's pre-emption granularity under the GIL); the harness realises it "
+    "at line boundaries (each modelled line has one shared access) and at bytecode boundaries inside the functions of the "
+    "shared-write table (sys.settrace with f_trace_opcodes); pre-emption INSIDE callees of those functions is line-level "
+    "(stream B / fieldlines), one thread runs at a time",
+    "bounded pre-emptions in the harness (<= 2 quick, <= 3 thorough; bytecode level 1 / 2), 2-3 threads; the Lean theorems have "
+    "no such bound",
+    "the model covers the collection-validation programs and the multi-field wrappers over scalar options (shared Field._name "
+    "cells); collections / wrappers nested under a homogeneous collection, nested structures, serializers, mapper caches and "
+    "scalar SerializableFields are checked by the sequential-result oracle only",
+    "element / option validity in the model is an oracle bit supplied per value (decided on the real option field)",
+    "lazily filled caches (_serialize closures, aggregated_mapper_by_class) and uniqueness registries are reset by the harness "
+    "before every schedule so that first-use races are exercised",
 ]
 TRUSTED_EXTRA = [
     "extract/field_aliases.py (dynamic probe: every declaration spelling written out freshly for two fields and a second "
     "class; Field objects reachable from two declarations -> Generated/FieldAliases.lean); covers the listed spellings only",
-    "extract/shared_writes.py (AST scan of the working tree -> Generated/SharedWrites.lean; Field objects are `self` of Field "
-    "classes, names derived from it, parameters called *field* and names tested with isinstance(x, <Field class>); module-level "
-    "dict caches with publish-before-fill detection) and its classification of "
-    "written values (perCall / ownerName / definitionOnly / keyedCache)",
+    "extract/shared_writes.py (AST scan of every sub-package of the working tree -> Generated/SharedWrites.lean): its "
+    "classification of written values (perCall / ownerName / definitionOnly / keyedCache / readModifyWrite / ...) and of "
+    "readBack; its COVERAGE of writes to Field objects is no longer trusted - the dynamic probe of the sched suite must find "
+    "every writing function in the table",
     "harness/suites/sched.py scheduler: a schedule is realised faithfully (one thread at a time, switch only at yield points)",
 ]
 
